@@ -200,8 +200,65 @@ def retarget_scenario(h: Harness, rng):
             check_create(h, spec, b, kind, mind + rng.choice([0, 1, 2]), [rng.randrange(0, 1000) for _ in range(128)])
 
 
+def check_evaluators(h: Harness):
+    """what the FITNESS FUNCTION is handed, for every representation under both evaluators (the
+    parallel one crosses a process boundary): each logged argument must be a well-typed program"""
+    import os
+    import tempfile
+    import pargrammar
+    from core import parse_sx
+    from linear import DSGE, GE, SGE, Stack
+    from geneticengine.evaluation.parallel import ParallelEvaluator
+    from geneticengine.evaluation.sequential import SequentialEvaluator
+    from geneticengine.exceptions import GeneticEngineError
+    from geneticengine.problems import SingleObjectiveProblem
+    from geneticengine.random.sources import NativeRandomSource
+    from geneticengine.representations.tree.treebased import TreeBasedRepresentation
+    from geneticengine.solutions.individual import Individual
+    g = pargrammar.grammar()
+    spec, _ = pargrammar.built()
+    line_spec = gram.spec_sx(spec)
+    fd, path = tempfile.mkstemp(prefix="c01-ff.")
+    os.close(fd)
+    os.environ["VERIF_FF_LOG"] = path
+    try:
+        for name in ("tree", "GE", "SGE", "DynamicSGE", "Stack"):
+            for evk in ("SequentialEvaluator", "ParallelEvaluator"):
+                for seed in range(h.n(2, 10)):
+                    r = NativeRandomSource(7919 * seed + 11)
+                    rep = {"tree": lambda: TreeBasedRepresentation(g, synth.make_decider("grow", 4, r, g)),
+                           "GE": lambda: GE(g, synth.make_decider("grow", 4, r, g), gene_length=32),
+                           "SGE": lambda: SGE(g, synth.make_decider("grow", 4, r, g), gene_length=32),
+                           "DynamicSGE": lambda: DSGE(g, 4), "Stack": lambda: Stack(g, gene_length=128)}[name]()
+                    inds = []
+                    for _ in range(3):
+                        try:
+                            inds.append(Individual(rep.create_genotype(r), rep))
+                        except GeneticEngineError:
+                            pass
+                    open(path, "w").close()
+                    ev = ParallelEvaluator() if evk == "ParallelEvaluator" else SequentialEvaluator()
+                    try:
+                        ev.evaluate(SingleObjectiveProblem(pargrammar.ff_report), inds)
+                    except Exception as e:  # noqa: BLE001
+                        h.count(f"evaluator:{name}:{evk}:raised:{type(e).__name__}")
+                        continue
+                    h.count(f"evaluator:{name}:{evk}")
+                    with open(path) as f:
+                        lines = [ln.strip() for ln in f if ln.strip()]
+                    for ln in lines:
+                        prog = parse_sx(ln)
+                        h.holds(f"{evk}.evaluate[{name}]", "fitness-function-handed-ill-typed-value", ["prop_wt_struct" if name == "Stack" else "prop_wt", line_spec, prog],
+                                f"the fitness function was handed {ln[:200]}, which is not a well-typed program of the grammar",
+                                {"rep": name, "evaluator": evk, "seed": seed})
+    finally:
+        os.environ.pop("VERIF_FF_LOG", None)
+        os.unlink(path)
+
+
 def run(h: Harness):
     rng = h.rng
+    check_evaluators(h)
     retarget_scenario(h, rng)
     nspecs = h.n(120, 2400)
     for _ in range(nspecs):
